@@ -1305,6 +1305,10 @@ def _live_case(R, case):
                 fail(R, "live:", "pickle-raises", case, {"exc": repr(e)[:200]})
                 blob = None
             out = in_child(child, root, blob, d3)
+            if out.get("child_error") == "child died":
+                # a child killed by the machine (memory pressure) is not a verdict: once more, from the same state
+                write_through(before, d2)
+                out = in_child(child, root, blob, d3)
             R.count("child:" + child)
             if "child_timeout" in out:
                 R.count("child:timeout")  # a slow machine is not a verdict
